@@ -1285,6 +1285,10 @@ void
 BitArrayT<NC_>::set() noexcept {
 	for (uint8_t& unit : _storage)
 		unit = UINT8_MAX;
+
+	// keep the unused bits of the last unit clear, 'empty()' inspects whole units
+	if (CAPACITY % 8)
+		_storage[UNIT_COUNT - 1] = static_cast<uint8_t>((1 << (CAPACITY % 8)) - 1);
 }
 
 template <unsigned NC_>
